@@ -143,7 +143,9 @@ func runC15(c *core.Ctx) {
 	c15Rank(x)
 	c15Sticky(x)
 	c15Dictionary(x)
-	(&c14x{c, newG(c, "./lib/rac")}).leafAssign()
+	lx := &c14x{c, newG(c, "./lib/rac")}
+	lx.leafAssign()
+	lx.leafUse()
 }
 
 // ---------------------------------------------------------------------------
